@@ -60,11 +60,17 @@ def tnSels (s : SchemaD) (v : View) : List Sel → List (Node × View)
   | x :: xs => tnSel s v x ++ tnSels s v xs
 end
 
+/-- a variable definition: its default value and its type live in the context of the operation, the arguments of its
+    directives in the context of their directive -/
+def tnVarDef (s : SchemaD) (v1 : View) (v : VarDef) : List (Node × View) :=
+  withView v1 (.varDef v :: ((match v.default with | some d => valueNodes d | none => []) ++ [.typeNode v.type])) ++
+    tnDirs s v1 v.dirs
+
 def tnDef (s : SchemaD) : Def → List (Node × View)
   | .op kind name vars dirs id sels =>
     let n := Node.operation kind name vars dirs sels
     let v1 := View.enter s n {}
-    (n, v1) :: (withView v1 (vars.flatMap varDefNodes) ++ tnDirs s v1 dirs ++
+    (n, v1) :: (vars.flatMap (tnVarDef s v1) ++ tnDirs s v1 dirs ++
       (.selectionSet id sels, View.enter s (.selectionSet id sels) v1) :: tnSels s (View.enter s (.selectionSet id sels) v1) sels)
   | .frag name on dirs id sels =>
     let n := Node.fragmentDef name on dirs
